@@ -47,8 +47,8 @@ def hidden_channels(b):
         (ts['args'][1] in ('hidden', 'both') and any('own' in c['sa'] for c in prog['calls']))
     ck = any(c['sk'] in ('foreign', 'own+f') for c in prog['calls']) or \
         (ts['kwargs'][1] in ('hidden', 'both') and any('own' in c['sk'] for c in prog['calls'])) or \
-        any(c.get('inarg') == 'mutate' for c in prog['calls']) or any(c['ctx'] == 'comp_rebinds_kwargs' for c in prog['calls'])
-    ca = ca or any(c['ctx'] == 'comp_rebinds_args' for c in prog['calls'])
+        any(c.get('inarg') == 'mutate' for c in prog['calls']) or any(c['ctx'] in ('comp_rebinds_kwargs', 'loop_rebinds_kwargs') for c in prog['calls'])
+    ca = ca or any(c['ctx'] in ('comp_rebinds_args', 'loop_rebinds_args') for c in prog['calls'])
     return ca, ck
 
 
